@@ -51,6 +51,13 @@ def run(tier):
                  ["--memory-mode", "Shared_Sram", "--system-config", "Ethos_U65_Embedded", "--config", compiles.CONFIG_INI]][rep % 3]
         jobs.append({"family": "one_channel_tail", "seed": "c02o-%d-%d" % (vlib.seed(), rep),
                      "args": ["--accelerator-config", "ethos-u65-512"] + extra, "capture": True})
+    # x2 bilinear resize with half-pixel centres (hand-made tile base addresses), channel counts that are multiples of the
+    # brick, under every allocator and in the fork's default configuration (no --accelerator-config: Ethos-U65-256, Dedicated SRAM)
+    for rep in range(8 if tier == "quick" else 160):
+        alloc = ["Greedy", "HillClimb", "LinearAlloc", "Greedy"][rep % 4]
+        acc = [[], [], ["--accelerator-config", "ethos-u55-128"], ["--accelerator-config", "ethos-u65-512"]][(rep // 4) % 4]
+        jobs.append({"family": "single:resize_hp16", "seed": "c02h-%d-%d" % (vlib.seed(), rep),
+                     "args": acc + ["--tensor-allocator", alloc], "capture": True})
     # the smallest legal arena cache (0 bytes: nothing may be placed in fast scratch) and other small ones, in the Dedicated-SRAM modes
     for rep in range(4 if tier == "quick" else 60):
         size = ["0", "0", "1024", "16"][rep % 4]
